@@ -329,8 +329,9 @@ Definition node_loose (n : rnode) : bool :=
   let is_none d := match d with DNone => true | _ => false end in
   match rn_dec n with
   | None => is_none (rn_cont n)
-  | Some d => existsb (fun cd => is_none (snd cd)) (rd_cats d) || is_none (snd (rd_default d))
-              || match rd_noresp d with Some (_, x) => is_none x | None => false end
+  | Some d => if rd_random d then existsb (fun cd => is_none (snd cd)) (rd_cats d)      (* a random split has buckets only *)
+              else existsb (fun cd => is_none (snd cd)) (rd_cats d) || is_none (snd (rd_default d))
+                   || match rd_noresp d with Some (_, x) => is_none x | None => false end
   end.
 
 Fixpoint has_loose (fuel : nat) (s : st) (g : nat) : bool :=
@@ -467,6 +468,10 @@ Definition alias_row (s : st) (rid : str) (g : nat) : st :=
   | _ => mkSt (s_nodes s) (s_groups s) ((rid, g) :: s_rowmap s) (s_names s) (s_stack s)
   end.
 
+(* the actions a row may add to an existing node of the same name: those of an action row *)
+Definition merge_actions (cls : eclass) (actions : list sexp) : list sexp :=
+  match cls with EAction => actions | _ => [] end.
+
 Definition fold_edges (s : st) (es : list redge) (f : redge -> dest) : option st :=
   fold_left (fun os e => match os with Some s' => add_row_edge s' e (f e) | None => None end) es (Some s).
 
@@ -523,10 +528,11 @@ Definition step_row (s : st) (r : row) : option st :=
       end
   | TEndBlock => None      (* handled by run_rows, which knows the row id of the head *)
   | TNode cls actions dec0 =>
-    match r_node_name r, alookup (s_names s) (r_node_name r), actions with
+    match r_node_name r, alookup (s_names s) (r_node_name r), merge_actions cls actions with
     | _ :: _, Some k, _ :: _ =>
-      (* a row merged into an existing node through its node name: exactly one
-         unconditional edge, coming from a row whose node is that node *)
+      (* an ACTION row merged into an existing node through its node name: exactly one
+         unconditional edge, coming from a row whose node is that node (a row that brings a decision
+         of its own - a wait, a split, a sub-flow, a webhook - is a node of its own) *)
       match r_edges r with
       | [e] =>
         if negb (cond_blank (e_cond e)) then None
@@ -624,8 +630,27 @@ Definition to_node (k : nat) (n : rnode) : node :=
     mkNode (nid k) acts exits (Some r)
   end.
 
+(* The nodes of the flow in SHEET order: the nodes of the row groups, block by block; the decision of a no_op stands
+   where the no_op row stands (it may come into being rows later).  The flow starts at its first node: "from the
+   first row on". *)
+Fixpoint gnodes (fuel : nat) (gs : list group) (g : nat) : list nat :=
+  match fuel with
+  | O => []
+  | S f =>
+    match nth_error gs g with
+    | Some (GRow k _) => [k]
+    | Some (GNoOp _ (Some k)) => [k]
+    | Some (GNoOp _ None) => []
+    | Some (GBlock ms) => flat_map (gnodes f gs) ms
+    | None => []
+    end
+  end.
+
+Definition node_order (s : st) : list nat :=
+  flat_map (gnodes (S (length (s_groups s))) (s_groups s)) (concat (s_stack s)).
+
 Definition to_flow (s : st) : flow :=
-  mkFlow [0%N] [] (map (fun kn => to_node (fst kn) (snd kn)) (number_from 0 (s_nodes s))).
+  mkFlow [0%N] [] (flat_map (fun k => match nth_error (s_nodes s) k with Some n => [to_node k n] | None => [] end) (node_order s)).
 
 (* the meaning of the rows AS READ (read_row: padding entries are not edges) *)
 Definition rowsem_read (no_args : str -> bool) (rows : list row) : option flow :=
